@@ -39,6 +39,7 @@ type ent struct {
 	Data  []int  `json:"data"`
 	Mtime int64  `json:"mtime"` // ns
 	Perm  uint32 `json:"perm"`
+	Link  string `json:"link,omitempty"` // symbolic link target (relative, inside the mount); oracle-only: not modelled
 }
 
 func bytesOf(s string) []int {
@@ -69,6 +70,12 @@ func treeSpec() []ent {
 	for i := range es {
 		es[i].Mtime = (base + int64(i)*1000) * 1_000_000_000
 	}
+	// symbolic links: to a file, to a directory, and dangling (target absent, inside the mount)
+	es = append(es,
+		ent{Path: "lfile", Link: "f.txt"},
+		ent{Path: "ldir", Link: "sub"},
+		ent{Path: "dangling", Link: "nowhere"},
+		ent{Path: "sub/dangling2", Link: "../nowhere2"})
 	return es
 }
 
@@ -90,7 +97,9 @@ func buildDir(dir string) {
 	}
 	for _, e := range es {
 		p := filepath.Join(dir, e.Path)
-		if e.Dir {
+		if e.Link != "" {
+			must(os.Symlink(e.Link, p))
+		} else if e.Dir {
 			if e.Path != "" {
 				must(os.Mkdir(p, 0o755))
 			}
@@ -101,6 +110,9 @@ func buildDir(dir string) {
 	// permissions and times last, deepest first, so that parents keep their times
 	for i := len(es) - 1; i >= 0; i-- {
 		e := es[i]
+		if e.Link != "" {
+			continue
+		}
 		p := filepath.Join(dir, e.Path)
 		must(os.Chmod(p, fs.FileMode(e.Perm)))
 		t := time.Unix(0, e.Mtime)
@@ -115,7 +127,9 @@ func buildMap() fstest.MapFS {
 			continue
 		}
 		mf := &fstest.MapFile{Data: toBytes(e.Data), Mode: fs.FileMode(e.Perm), ModTime: time.Unix(0, e.Mtime)}
-		if e.Dir {
+		if e.Link != "" {
+			mf = &fstest.MapFile{Data: []byte(e.Link), Mode: fs.ModeSymlink | 0o777}
+		} else if e.Dir {
 			mf.Mode |= fs.ModeDir
 			mf.Data = nil
 		}
@@ -517,7 +531,53 @@ type mut struct {
 var paths = []string{"f.txt", "missing", "sub", "sub/g.bin", "sub/deep/h", "f.txt/x", "emptydir", ".", "empty", "sub/missing", "missing/x", "sub/deep"}
 var relInSub = []string{"g.bin", "deep", "deep/h", "missing", "g.bin/x"}
 
+var symPaths = []string{"lfile", "ldir", "dangling", "ldir/g.bin", "ldir/deep/h", "ldir/missing", "dangling/x", "lfile/x", "sub/dangling2", "ldir/dangling2", "ldir/deep"}
+var symProduct = []string{"lfile", "ldir", "dangling"}
+
 func pick[T any](r *c.Rng, xs []T) T { return xs[r.Intn(len(xs))] }
+
+// symbolise redirects most path arguments of a generated sequence to the symbolic links of the tree.
+func symbolise(r *c.Rng, ops [][]any) [][]any {
+	for _, op := range ops {
+		for i := 1; i < len(op); i++ {
+			if _, ok := op[i].(string); ok && r.Intn(10) < 7 {
+				op[i] = pick(r, symPaths)
+			}
+		}
+	}
+	return ops
+}
+
+// symSingles: opens with every kind of write intent and every other mutating operation aimed at the three links,
+// following and not following, directly and below a descriptor opened through the directory link.
+func symSingles() [][]any {
+	var ops [][]any
+	for _, p := range []string{"lfile", "ldir", "dangling", "sub/dangling2", "ldir/dangling2", "ldir/g.bin", "ldir/newfile"} {
+		for _, d := range []uint64{0, 1} {
+			for _, o := range []uint64{0, 1, 8, 9, 5, 3, 2} { // -, CREAT, TRUNC, CREAT|TRUNC, CREAT|EXCL, CREAT|DIRECTORY, DIRECTORY
+				for _, rt := range []uint64{2, 0, 64, 66} {
+					ops = append(ops, []any{"open", uint64(3), d, o, uint64(0), rt, p})
+				}
+			}
+			ops = append(ops, []any{"open", uint64(3), d, uint64(1), uint64(1), uint64(2), p}, // CREAT + APPEND
+				[]any{"pathtimes", uint64(3), d, p, uint64(5), uint64(7), uint64(5)},
+				[]any{"pathtimes", uint64(3), d, p, uint64(0), uint64(0), uint64(10)})
+		}
+		ops = append(ops, []any{"mkdir", uint64(3), p}, []any{"rmdir", uint64(3), p}, []any{"unlink", uint64(3), p},
+			[]any{"rename", uint64(3), p, uint64(3), "renamed"}, []any{"rename", uint64(3), "f.txt", uint64(3), p},
+			[]any{"link", uint64(3), p, uint64(3), "hard"}, []any{"link", uint64(3), "f.txt", uint64(3), p},
+			[]any{"symlink", "f.txt", uint64(3), p}, []any{"stat", uint64(3), p})
+	}
+	// descriptors obtained THROUGH links (numbers depend on which opens above succeeded, so aim at a range)
+	for fd := uint64(4); fd < 40; fd += 3 {
+		data := []any{uint64(88)}
+		ops = append(ops, []any{"write", fd, data}, []any{"pwrite", fd, uint64(0), data}, []any{"setsize", fd, uint64(0)},
+			[]any{"allocate", fd, uint64(0), uint64(100)}, []any{"fdtimes", fd, uint64(5), uint64(7), uint64(5)},
+			[]any{"mkdir", fd, "viafd"}, []any{"unlink", fd, "g.bin"}, []any{"open", fd, uint64(1), uint64(1), uint64(0), uint64(2), "created"},
+			[]any{"open", fd, uint64(1), uint64(1), uint64(0), uint64(2), "dangling2"}, []any{"read", fd, uint64(8)})
+	}
+	return ops
+}
 
 func randFlags16(r *c.Rng, defined int) uint64 {
 	switch r.Intn(4) {
@@ -896,6 +956,9 @@ func (m *mount) dproduct(path string) dprodCase {
 
 func genDirect(r *c.Rng) []any {
 	p := pick(r, paths)
+	if r.Intn(4) == 0 {
+		p = pick(r, symPaths) // through a symbolic link: oracle-only
+	}
 	switch k := r.Intn(16); {
 	case k < 8:
 		fl := uint64(r.Intn(8192))
@@ -948,9 +1011,11 @@ func main() {
 
 	prodPaths := []string{"f.txt", "missing", "sub", "sub/g.bin"}
 	if *full {
-		prodPaths = paths
+		prodPaths = append([]string{}, paths...)
+		prodPaths = append(prodPaths, symPaths...)
 	} else {
 		prodPaths = append(prodPaths, pick(rng, paths[4:]))
+		prodPaths = append(prodPaths, symProduct...)
 	}
 	for _, kind := range []string{"ro", "os", "map"} {
 		m := newMount(ctx, kind, root, "compiler")
@@ -968,14 +1033,26 @@ func main() {
 			m.engine = eng
 			out.Emit(m.runSeq("singles", singles()))
 			out.Emit(m.runSeq("reads", readsSeq()))
+			out.Emit(m.runSeq("symsingles", symSingles()))
 		}
 		// 3. random sequences
 		for i := 0; i < *nseq; i++ {
 			m.engine = []string{"compiler", "interp"}[i%2]
 			out.Emit(m.runSeq("random", genSeq(rng, *seqLen)))
+			if i%2 == 0 {
+				out.Emit(m.runSeq("symrandom", symbolise(rng, genSeq(rng, *seqLen))))
+			}
 		}
 		// 4. the sys.FS level, directly
-		for _, p := range prodPaths {
+		dpaths := prodPaths
+		if !*full {
+			if kind == "ro" {
+				dpaths = []string{"f.txt", "missing", "sub", "lfile", "ldir", "dangling"}
+			} else {
+				dpaths = []string{"f.txt", "dangling"}
+			}
+		}
+		for _, p := range dpaths {
 			out.Emit(m.dproduct(p))
 		}
 		for i := 0; i < *ndirect; i++ {
